@@ -1172,11 +1172,14 @@ func directiveSecRuleUpdateTargetByID(options *DirectiveOptions) error {
 				return fmt.Errorf("invalid range: %s", idOrRange)
 			}
 
-			for _, rule := range options.WAF.Rules.GetRules() {
-				if rule.ID_ >= start && rule.ID_ <= end {
+			// Update the rules in place: a loop variable would be a copy, and targets added to a
+			// copy are lost.
+			rules := options.WAF.Rules.GetRules()
+			for i := range rules {
+				if rules[i].ID_ >= start && rules[i].ID_ <= end {
 					updated++
 					rp := RuleParser{
-						rule: &rule,
+						rule: &rules[i],
 						options: RuleOptions{
 							WAF: options.WAF,
 						},
@@ -1388,11 +1391,13 @@ func directiveSecRuleUpdateTargetByTag(options *DirectiveOptions) error {
 		return errors.New("syntax error: SecRuleUpdateTargetByTag tag \"VARIABLES\"")
 	}
 
-	for _, rule := range options.WAF.Rules.GetRules() {
+	// Update the rules in place: a loop variable would be a copy, and targets added to a copy are lost.
+	rules := options.WAF.Rules.GetRules()
+	for i := range rules {
 		inputTag := strings.Trim(tagAndvars[0], "\"")
-		if utils.InSlice(inputTag, rule.Tags_) {
+		if utils.InSlice(inputTag, rules[i].Tags_) {
 			rp := RuleParser{
-				rule: &rule,
+				rule: &rules[i],
 				options: RuleOptions{
 					WAF: options.WAF,
 				},
